@@ -138,7 +138,7 @@ func (t *gateTransport) RoundTrip(req *http.Request) (*http.Response, error) {
 		Proto:      "HTTP/1.1", ProtoMajor: 1, ProtoMinor: 1,
 		Header:  http.Header{"Content-Type": []string{"text/plain"}},
 		Body:    io.NopCloser(strings.NewReader(o.body)),
-		Request: req,
+		Request: req, ContentLength: nextFakeLength(o.body),
 	}, nil
 }
 
@@ -171,6 +171,18 @@ var errInjected = errors.New("verif: injected transport error")
 var transportErrs = []error{errInjected, io.EOF, syscall.ECONNRESET, io.ErrUnexpectedEOF, context.DeadlineExceeded, syscall.ECONNREFUSED, net.ErrClosed, syscall.EPIPE}
 
 var transportErrNext atomic.Uint64
+
+// fakeLengths are the ContentLength values real responses carry: the exact length, and -1 for a
+// body of unknown length (chunked, streamed, HTTP/1.0), which is what every other fake response
+// of the seams declares.
+var fakeLengthNext atomic.Uint64
+
+func nextFakeLength(body string) int64 {
+	if fakeLengthNext.Add(1)%2 == 0 {
+		return -1
+	}
+	return int64(len(body))
+}
 
 // nextTransportErr rotates through transportErrs.
 func nextTransportErr() error {
